@@ -73,8 +73,8 @@ pub fn strategy() -> impl Strategy<Value = Case> {
     (
         0u8..PRESETS.len() as u8,
         prop_oneof![3 => Just(0u8), 4 => Just(1u8), 4 => Just(2u8), 1 => Just(3u8), 1 => Just(4u8), 4 => Just(5u8), 4 => Just(6u8)],
-        0u8..10,
-        proptest::option::weighted(0.4, 0u8..10),
+        0u8..15,
+        proptest::option::weighted(0.4, 0u8..15),
         any::<bool>(),
         proptest::bool::weighted(0.3),
         0u8..5,
@@ -181,7 +181,13 @@ fn build_layout(sb: &mut Sandbox, layout: u8) -> Layout {
 fn path_for(l: &Layout, class: u8, sb: &Sandbox) -> (String, Option<PathBuf>) {
     let r0 = l.repos.first().cloned().unwrap_or_else(|| l.workspace.clone());
     let rl = l.repos.last().cloned().unwrap_or_else(|| l.workspace.clone());
-    match class % 10 {
+    match class % 15 {
+        // file:// URIs (VS Code style), well-formed and with stray percent signs
+        10 => (format!("file://{}", r0.join("src/code.rs").to_string_lossy()), Some(r0.join("src/code.rs"))),
+        11 => (format!("file://{}", r0.join("src/code.rs").to_string_lossy().replace("code", "%63ode")), Some(r0.join("src/code.rs"))),
+        12 => (format!("file://{}%", r0.join("src/discount-50").to_string_lossy()), None),
+        13 => (format!("file://{}%a", r0.join("src/rate-7").to_string_lossy()), None),
+        14 => (format!("file://{}%e9\u{e9}%zz%", r0.join("src/caf").to_string_lossy()), None),
         0 => ("src/code.rs".into(), Some(r0.join("src/code.rs"))),
         1 => (r0.join("src/code.rs").to_string_lossy().into_owned(), Some(r0.join("src/code.rs"))),
         2 => ("src/../top.txt".into(), Some(r0.join("top.txt"))),
@@ -402,7 +408,7 @@ pub fn run(case: &Case) -> CaseReport {
                         "preset {} layout {} path classes {:?}: recorded (repository#, file) {:?} with the files in the given order, {:?} with the order reversed",
                         PRESETS[case.preset as usize % PRESETS.len()].0,
                         case.layout % 7,
-                        (case.path_class % 10, case.second_path_class.map(|c| c % 10)),
+                        (case.path_class % 15, case.second_path_class.map(|c| c % 15)),
                         recorded,
                         recorded_rev
                     ),
@@ -435,7 +441,7 @@ fn run_inner(case: &Case, reverse: bool, recorded: &mut BTreeSet<(usize, String)
                 }
             }
         }
-        rep.class(format!("path-class:{}", c % 10));
+        rep.class(format!("path-class:{}", c % 15));
         files.push(s);
     }
     if reverse {
@@ -560,7 +566,7 @@ pub fn spec() -> Spec<Case> {
     Spec {
         id: "C20",
         level: "exploration",
-        rule: "for each of 12 preset names (claude, codex, gemini, continue-cli, cursor, github-copilot, amp, ai_tab, agent-v1, droid, opencode, an unknown name; pre- and post-edit events) a union payload template carrying every key any preset reads is mutated structurally (truncation at any byte, key deletion, type swap string<->number<->array<->object<->null<->bool, nesting, duplicated key, 70 kB - 3 MB strings, BOM, non-JSON, empty object) and delivered via --hook-input <arg> or stdin; path fields are drawn from {relative in repo, absolute, with `..`, via symlink, missing, a directory, outside any repository, in the innermost repository, in a sibling repository via `..`, in a non-existent directory}; layouts: single repository, nested repositories, multi-repository workspace whose root is no repository, a non-repository workspace holding a repository with a nested repository, sibling repositories with the workspace in the first, bare repository, no repository; cwd inside or outside the workspace; transcript side files valid / empty / garbage / other-format / missing. Oracle: exit status 0, no Rust panic banner, termination within the watchdog; afterwards every checkpoints.jsonl of every repository is line-wise valid JSON, `checkpoint --show-working-log` succeeds, every recorded file resolves inside the work tree of the repository that owns that log and belongs to no other (innermost) repository, nothing is created outside repositories, and a wrapped commit still succeeds in each; for the agent-v1 preset (whose payload is a plain list of edited files) the set of recorded (repository, file) pairs must not change when the order of the files in the payload is reversed. non-trivial = valid JSON naming an existing file, or a non-empty payload the parser rejects; distinct by case hash".into(),
+        rule: "for each of 12 preset names (claude, codex, gemini, continue-cli, cursor, github-copilot, amp, ai_tab, agent-v1, droid, opencode, an unknown name; pre- and post-edit events) a union payload template carrying every key any preset reads is mutated structurally (truncation at any byte, key deletion, type swap string<->number<->array<->object<->null<->bool, nesting, duplicated key, 70 kB - 3 MB strings, BOM, non-JSON, empty object) and delivered via --hook-input <arg> or stdin; path fields are drawn from {relative in repo, absolute, with `..`, via symlink, missing, a directory, outside any repository, in the innermost repository, in a sibling repository via `..`, in a non-existent directory, `file://` URIs - plain, percent-encoded, and with stray or truncated percent escapes}; layouts: single repository, nested repositories, multi-repository workspace whose root is no repository, a non-repository workspace holding a repository with a nested repository, sibling repositories with the workspace in the first, bare repository, no repository; cwd inside or outside the workspace; transcript side files valid / empty / garbage / other-format / missing. Oracle: exit status 0, no Rust panic banner, termination within the watchdog; afterwards every checkpoints.jsonl of every repository is line-wise valid JSON, `checkpoint --show-working-log` succeeds, every recorded file resolves inside the work tree of the repository that owns that log and belongs to no other (innermost) repository, nothing is created outside repositories, and a wrapped commit still succeeds in each; for the agent-v1 preset (whose payload is a plain list of edited files) the set of recorded (repository, file) pairs must not change when the order of the files in the payload is reversed. non-trivial = valid JSON naming an existing file, or a non-empty payload the parser rejects; distinct by case hash".into(),
         cases_quick: 2500,
         cases_thorough: 24_000,
         shrink_iters: 100,
